@@ -6,9 +6,11 @@ TX_ASSUME = ["sampled over 256-bit field values (exhaustive over structure, boun
 CHECKS = {
     "C06": dict(
         level="model_checking",
-        mc=[],
+        mc=[dict(module="MC_Tx", workers=8), dict(module="MC_Rlp", workers=16)],
         gen=[dict(module="Gen_C06", slices=dict(quick=16, thorough=16))],
-        rule="TLC enumerates Gen_C06 (presence lattice of dispatch keys x recipient mode, boundary values in every "
+        rule="MC_Tx: over 396 structurally distinct transactions no two share a signing or signed payload, the strict decoder "
+             "recovers the signed items, the EIP-155 tail / type byte / v rules hold, kind dispatch over all 1024 key subsets; "
+             "TLC enumerates Gen_C06 (presence lattice of dispatch keys x recipient mode, boundary values in every "
              "numeric slot of every kind, calldata lengths, access-list shapes, chain ids x nonces, PRNG documents); "
              "non-trivial = distinct documents for which the specification yields exactly one allowed outcome "
              "(byte-exact signed payload / digest / signature, or must-reject)",
@@ -89,8 +91,8 @@ CHECKS = {
         level="model_checking",
         mc=[dict(module="MC_HdPath", workers=16)],
         gen=[dict(module="Gen_C14", slices=dict(quick=8, thorough=16))],
-        rule="MC_HdPath: classification total/exclusive and print/parse inverse over every string up to length 5 over "
-             "{m / ' 0 1 9 - . + SPACE}; Gen_C14: every such string up to length 4 (quick) / 6 (thorough) parsed by the "
+        rule="MC_HdPath: classification total/exclusive and print/parse inverse over every string up to length 5 (quick) / 6 "
+             "(thorough) over {m / ' 0 1 9 - . + SPACE}; Gen_C14: every such string up to length 4 (quick) / 5 (thorough) parsed by the "
              "implementation, boundary indices (2^31-1, 2^31, 2^31+1, 2^32-1, 2^32, 2^64, 10^30) normal/hardened at "
              "depths 1..5 parsed and derived, named spellings, for_index at the boundaries",
         assumptions=[],
@@ -161,7 +163,7 @@ CHECKS = {
     ),
     "C11": dict(
         level="model_checking",
-        mc=[dict(module="MC_Wallet", workers=16)],
+        mc=[dict(module="MC_Wallet", workers=16), dict(module="MC_Tx", workers=8)],
         gen=[dict(module="Gen_C11", slices=dict(quick=16, thorough=16), profiles=dict(quick=["dev"], thorough=["dev", "release"]))],
         rule="MC_Wallet: the CLI stage machine over concrete commands: every behaviour ends in printed / failed / open, "
              "a legacy transaction without chain id is printed by `sign` only with the override flag, a printed "
@@ -212,9 +214,10 @@ CHECKS = {
         judge="JudgeCrash",
         mc=[],
         gen=[dict(module="Gen_C17", slices=dict(quick=16, thorough=16), profiles=dict(quick=["dev"], thorough=["dev", "release"]))]
-            + [dict(module=m, slices=dict(quick=16, thorough=16)) for m in
+            + [dict(module=m, slices=dict(quick=16, thorough=16), as_tier="quick") for m in
                ("Gen_C14", "Gen_C15", "Gen_C13", "Gen_C11", "Gen_C09", "Gen_C12", "Gen_C12cli", "Gen_C19", "Gen_C04", "Gen_C20")]
-            + [dict(module=m, slices=dict(thorough=16), tiers=("thorough",)) for m in
+            # thorough: every other workload as well, at its quick size (as_tier), so that the whole union stays tractable
+            + [dict(module=m, slices=dict(thorough=16), tiers=("thorough",), as_tier="quick") for m in
                ("Gen_C01", "Gen_C02", "Gen_C03", "Gen_C05", "Gen_C06", "Gen_C07", "Gen_C08", "Gen_C10", "Gen_C16", "Gen_C18", "Gen_C15cli")],
         rule="every event of the union of the workloads is validated against the crash-free specification (JudgeCrash: no "
              "panic / exit 101 / signal / timeout / silent error): Gen_C17 (single token-class edits at every position of "
@@ -222,7 +225,7 @@ CHECKS = {
              "typed-data member types; hostile document shapes, nesting to 127; 45 member type strings with up to 64 array "
              "suffixes; PRNG strings to every parser; 32 hostile values in 9 CLI option slots; -j 0..64; 19 file/stdin "
              "contents x 11 reading commands; missing files) plus the boundary workloads of C04, C09, C11, C12, C13, C14, "
-             "C15, C19, C20 (quick) and of all properties (thorough). distinct_nontrivial = distinct inputs the "
+             "C15, C19, C20 (quick) and of all properties (thorough; the other workloads at their quick size, Gen_C17 at its thorough size, both build profiles). distinct_nontrivial = distinct inputs the "
              "implementation ACCEPTED (got past every validation stage), counted from the recorded outcomes",
         assumptions=["sampling guided by the specification's boundary structure, not a proof of panic freedom",
                      "bounded as the property states: JSON nesting <= 128, array suffixes <= 64, threads <= 64, prefixes <= 3 digits"],
